@@ -498,6 +498,7 @@ fn mode_stress(eng: &Engine, report: &mut Report) {
     }
     // ---- a long-lived thread among many short-lived ones: the main thread keeps creating nodes while more than 64 other
     // threads come and go; for the per-thread models its stream must simply continue the sequential stream 0
+    let mut short_lived_total = 0usize;
     if matches!(model, SourceModel::PerThread | SourceModel::PerThreadSeeded) {
         let mut pos = 2 * k; // the calibration consumed 2k draws of stream 0
         let mut ok = true;
@@ -529,8 +530,29 @@ fn mode_stress(eng: &Engine, report: &mut Report) {
             pos += mine.len();
         }
         report.count("short_lived_threads_next_to_a_long_lived_one", short_lived);
+        short_lived_total = short_lived as usize;
         let _ = ok;
     }
+
+    // ---- coincidences between two threads' streams (needs the next two sequential streams)
+    match model {
+        SourceModel::PerThread => coincidence_phase(report, s0, s0),
+        SourceModel::PerThreadSeeded => {
+            // the short-lived threads of the phase above took one generator each
+            let lo = next_generator + short_lived_total;
+            if lo + 2 <= ref_threads + 1 {
+                coincidence_phase(report, stream(lo), stream(lo + 1));
+            } else {
+                report.inconclusive("reference file holds too few sequential streams for the coincidence phase");
+            }
+        }
+        _ => {
+            report.extra("coincidence_subcheck", "not applicable to this priority source model");
+        }
+    }
+
+    // ---- first use in fresh processes
+    firstuse_phase(report, model, a.thorough());
 
     // ---- shapes under caller-assigned priorities: several threads run the same fixed-priority scenario at once; every
     // one of them must get exactly the shapes of the run alone (computed on this thread before any of them started)
@@ -575,6 +597,283 @@ fn mode_stress(eng: &Engine, report: &mut Report) {
     report.extra("creations_per_thread", per_thread);
 }
 
+// ------------------------------------------------------------------------------------------------
+// first use: whatever a thread does the first time it needs a priority (seeding its generator, registering itself)
+// happens once per thread and, for the very first threads, once per process. A child process whose main thread never
+// creates a node releases T threads from a spin barrier straight into their first node creation; the parent repeats
+// that in many fresh processes and compares every run with the same program run sequentially (threads one after
+// another): the streams handed out must be the same ones.
+
+fn mode_firstuse_child(threads: usize, draws: usize, sequential: bool) {
+    let mut out: Vec<Vec<u32>> = Vec::new();
+    if sequential {
+        for _ in 0..threads {
+            out.push(std::thread::spawn(move || draw_main(draws)).join().expect("child thread"));
+        }
+    } else {
+        let arrived = Arc::new(AtomicU64::new(0));
+        let hs: Vec<_> = (0..threads)
+            .map(|_| {
+                let arrived = arrived.clone();
+                std::thread::spawn(move || {
+                    arrived.fetch_add(1, Ordering::SeqCst);
+                    while arrived.load(Ordering::SeqCst) < threads as u64 {
+                        std::hint::spin_loop();
+                    }
+                    draw_main(draws)
+                })
+            })
+            .collect();
+        for h in hs {
+            out.push(h.join().expect("child thread"));
+        }
+    }
+    for s in out {
+        let line: Vec<String> = s.iter().map(|x| x.to_string()).collect();
+        println!("STREAM {}", line.join(" "));
+    }
+}
+
+fn run_firstuse_child(threads: usize, draws: usize, sequential: bool) -> Option<Vec<Vec<u32>>> {
+    let exe = std::env::current_exe().ok()?;
+    let mut cmd = std::process::Command::new(exe);
+    cmd.arg("--mode").arg("firstuse-child").arg("--workers").arg(threads.to_string()).arg("--draws").arg(draws.to_string());
+    if sequential {
+        cmd.arg("--sequential").arg("yes");
+    }
+    let o = cmd.output().ok()?;
+    if !o.status.success() {
+        return None;
+    }
+    let text = String::from_utf8_lossy(&o.stdout);
+    let mut v = Vec::new();
+    for l in text.lines() {
+        if let Some(rest) = l.strip_prefix("STREAM ") {
+            v.push(rest.split(' ').filter(|x| !x.is_empty()).map(|x| x.parse::<u32>().unwrap_or(0)).collect::<Vec<u32>>());
+        }
+    }
+    if v.len() == threads {
+        Some(v)
+    } else {
+        None
+    }
+}
+
+fn firstuse_phase(report: &mut Report, model: SourceModel, thorough: bool) {
+    let (threads, draws) = (4usize, 4usize);
+    let runs = if thorough { 1500 } else { 240 };
+    let seq = match (run_firstuse_child(threads, draws, true), run_firstuse_child(threads, draws, true)) {
+        (Some(a), Some(b)) if a == b => a,
+        (Some(_), Some(_)) => {
+            report.extra("first_use_subcheck", "not applicable: the sequential child process is not reproducible");
+            return;
+        }
+        _ => {
+            report.inconclusive("first-use child process (sequential) failed");
+            return;
+        }
+    };
+    if model == SourceModel::Unknown {
+        report.extra("first_use_subcheck", "not applicable: unknown priority source model");
+        return;
+    }
+    let mut want_streams = seq.clone();
+    want_streams.sort();
+    let mut want_all: Vec<u32> = seq.iter().flatten().cloned().collect();
+    want_all.sort_unstable();
+    let results: std::sync::Mutex<Vec<Option<Vec<Vec<u32>>>>> = std::sync::Mutex::new(Vec::new());
+    let next = AtomicU64::new(0);
+    std::thread::scope(|sc| {
+        // a few children at a time: the threads of one child must really run in parallel
+        for _ in 0..3 {
+            sc.spawn(|| {
+                while next.fetch_add(1, Ordering::Relaxed) < runs as u64 {
+                    let r = run_firstuse_child(threads, draws, false);
+                    results.lock().unwrap().push(r);
+                }
+            });
+        }
+    });
+    let results = results.into_inner().unwrap();
+    let mut failed = 0u64;
+    let mut distinct_orders = std::collections::HashSet::new();
+    for r in results {
+        let got = match r {
+            Some(g) => g,
+            None => {
+                failed += 1;
+                continue;
+            }
+        };
+        report.inc("first_use_processes");
+        distinct_orders.insert(got.iter().map(|s| s.first().cloned().unwrap_or(0)).collect::<Vec<u32>>());
+        let ok = match model {
+            SourceModel::Global => {
+                let mut all: Vec<u32> = got.iter().flatten().cloned().collect();
+                all.sort_unstable();
+                all == want_all
+            }
+            _ => {
+                let mut g = got.clone();
+                g.sort();
+                g == want_streams
+            }
+        };
+        if !ok {
+            report.violation(
+                "priority_stream_not_sequential:first_use",
+                Json::obj()
+                    .set("what", "threads released together into their first node creation in a fresh process did not receive the priority streams the same program receives when its threads run one after another (a stream was handed out twice, or lost)")
+                    .set("threads", threads)
+                    .set("streams_seen", Json::Arr(got.iter().map(|s| Json::from(s.iter().map(|&x| x as u64).collect::<Vec<u64>>())).collect()))
+                    .set("streams_of_the_sequential_run", Json::Arr(seq.iter().map(|s| Json::from(s.iter().map(|&x| x as u64).collect::<Vec<u64>>())).collect())),
+                vec!["--mode".into(), "stress".into()],
+            );
+            break;
+        }
+    }
+    report.count("first_use_distinct_stream_assignments", distinct_orders.len() as u64);
+    if failed > runs as u64 / 10 {
+        report.inconclusive(format!("{} of {} first-use child processes failed", failed, runs));
+    }
+}
+
+// ------------------------------------------------------------------------------------------------
+// coincidences: two threads A and B with their own generators; the reference streams tell at which positions (i, j) A's
+// i-th and B's j-th priority are the same 32-bit value. The schedule makes A draw exactly that value immediately before
+// B is due to draw it (no other thread creates a node in between): an implementation in which threads interfere only
+// when values coincide (a process-wide "last value" filter, a cache keyed by value) is silent in every random schedule
+// and shows here.
+
+fn coincidence_phase(report: &mut Report, sa: &[u32], sb: &[u32]) {
+    use std::collections::HashMap;
+    use std::sync::mpsc;
+    let mut first_pos: HashMap<u32, usize> = HashMap::with_capacity(sa.len());
+    for (i, &v) in sa.iter().enumerate().skip(1) {
+        first_pos.entry(v).or_insert(i);
+    }
+    let mut pairs: Vec<(usize, usize)> = Vec::new();
+    for (j, &v) in sb.iter().enumerate().skip(1) {
+        if let Some(&i) = first_pos.get(&v) {
+            pairs.push((i, j));
+        }
+    }
+    pairs.sort();
+    // the longest chain increasing in both coordinates (quadratic longest-increasing-subsequence over at most 4000 pairs),
+    // cut to 64 links
+    pairs.dedup_by_key(|p| p.0);
+    if pairs.len() > 4000 {
+        let step = pairs.len() / 4000 + 1;
+        pairs = pairs.into_iter().step_by(step).collect();
+    }
+    let mut best: Vec<usize> = vec![1; pairs.len()];
+    let mut prev: Vec<usize> = vec![usize::MAX; pairs.len()];
+    for x in 0..pairs.len() {
+        for y in 0..x {
+            if pairs[y].0 < pairs[x].0 && pairs[y].1 < pairs[x].1 && best[y] + 1 > best[x] {
+                best[x] = best[y] + 1;
+                prev[x] = y;
+            }
+        }
+    }
+    let mut chain: Vec<(usize, usize)> = Vec::new();
+    if let Some(mut x) = (0..pairs.len()).max_by_key(|&x| best[x]) {
+        loop {
+            chain.push(pairs[x]);
+            if prev[x] == usize::MAX {
+                break;
+            }
+            x = prev[x];
+        }
+        chain.reverse();
+    }
+    if chain.len() > 64 {
+        let step = chain.len() / 64 + 1;
+        chain = chain.into_iter().step_by(step).collect();
+    }
+    report.count("coincident_positions_found", pairs.len() as u64);
+    if chain.is_empty() {
+        report.extra("coincidence_subcheck", "no equal values in the two reference streams (streams too short)");
+        return;
+    }
+    // worker threads: receive a number of draws, answer with the priorities
+    let spawn_worker = || {
+        let (tx_cmd, rx_cmd) = mpsc::channel::<usize>();
+        let (tx_res, rx_res) = mpsc::channel::<Vec<u32>>();
+        let h = std::thread::spawn(move || {
+            while let Ok(n) = rx_cmd.recv() {
+                if tx_res.send(draw_main(n)).is_err() {
+                    break;
+                }
+            }
+        });
+        (tx_cmd, rx_res, h)
+    };
+    let (a_cmd, a_res, ah) = spawn_worker();
+    let (b_cmd, b_res, bh) = spawn_worker();
+    let mut got_a: Vec<u32> = Vec::new();
+    let mut got_b: Vec<u32> = Vec::new();
+    let draw = |who: u8, n: usize, got_a: &mut Vec<u32>, got_b: &mut Vec<u32>| -> bool {
+        if n == 0 {
+            return true;
+        }
+        let (cmd, res, got) = if who == 0 { (&a_cmd, &a_res, got_a) } else { (&b_cmd, &b_res, got_b) };
+        if cmd.send(n).is_err() {
+            return false;
+        }
+        match res.recv() {
+            Ok(v) => {
+                got.extend(v);
+                true
+            }
+            Err(_) => false,
+        }
+    };
+    // generator assignment order: A first, then B
+    let mut alive = draw(0, 1, &mut got_a, &mut got_b) && draw(1, 1, &mut got_a, &mut got_b);
+    let mut links = 0u64;
+    for &(i, j) in &chain {
+        if !alive {
+            break;
+        }
+        // B up to (excluding) j, then A up to (including) i, then B draws its j-th
+        alive = alive && draw(1, j - got_b.len().min(j), &mut got_a, &mut got_b);
+        alive = alive && draw(0, (i + 1).saturating_sub(got_a.len()), &mut got_a, &mut got_b);
+        alive = alive && draw(1, 1, &mut got_a, &mut got_b);
+        links += 1;
+    }
+    if alive {
+        let _ = draw(1, 8, &mut got_a, &mut got_b);
+        let _ = draw(0, 8, &mut got_a, &mut got_b);
+    }
+    drop(a_cmd);
+    drop(b_cmd);
+    let _ = ah.join();
+    let _ = bh.join();
+    report.count("coincidence_links_driven", links);
+    if !alive {
+        report.violation("worker_panicked", Json::obj().set("phase", "coincidences"), vec!["--mode".into(), "stress".into()]);
+        return;
+    }
+    for (name, got, want) in [("A", &got_a, sa), ("B", &got_b, sb)] {
+        let n = got.len().min(want.len());
+        if let Some(pos) = (0..n).find(|&k| got[k] != want[k]) {
+            report.violation(
+                "priority_stream_not_sequential:coincidence",
+                Json::obj()
+                    .set("what", "a thread's priority stream differs from its sequential stream at a point where another thread had just been handed the very same 32-bit value")
+                    .set("thread", name)
+                    .set("first_differing_draw", pos)
+                    .set("got", got[pos])
+                    .set("want", want[pos])
+                    .set("coincidence_chain", Json::Arr(chain.iter().take(12).map(|&(i, j)| Json::from(vec![i as u64, j as u64])).collect())),
+                vec!["--mode".into(), "stress".into()],
+            );
+            return;
+        }
+    }
+}
+
 fn main() {
     let args: Vec<String> = std::env::args().collect();
     let get = |k: &str, d: &str| -> String {
@@ -592,6 +891,9 @@ fn main() {
         }
         "reference-seq" => {
             mode_reference_seq(get("--ref-threads", "4").parse().unwrap(), get("--draws", "1000").parse().unwrap(), &get("--ref-out", "reference.bin"));
+        }
+        "firstuse-child" => {
+            mode_firstuse_child(get("--workers", "4").parse().unwrap(), get("--draws", "4").parse().unwrap(), get("--sequential", "no") == "yes");
         }
         "stress" => {
             let eng = Engine::start("racemon");
